@@ -13,7 +13,7 @@
    that aliasing between a grid and its clone / clip / loaded copy would show.
    `hist` is hidden by VIEW except for the last action's name. *)
 EXTENDS Integers, Sequences, FiniteSets, TLC
-CONSTANTS MaxDepth, DTypes, Toks
+CONSTANTS MaxDepth, DTypes, Toks, Acts
 Ids == {1, 2, 3}
 Paths == {"p"}
 None == [none |-> TRUE]
@@ -66,12 +66,18 @@ Clip(o, o2, r0, r1, c0, c1) ==
                                               IN objs[o].data[(r0 - 1 + r) * objs[o].nc + (c0 + c)]],
                                   clipof |-> <<r0, r1, c0, c1>>]]
                 /\ UNCHANGED files /\ Log(<<"clip", o, o2, r0, r1, c0, c1>>)
-Next == \/ \E o \in Ids, k \in 1..4, t \in Toks : Mutate(o, k, t)
-        \/ \E o \in Ids, p \in Paths : Save(o, p)
-        \/ \E p \in Paths, bo \in {"I", "M"}, sh \in {<<1, 2>>, <<2, 2>>}, dt \in DTypes, t \in Toks : WriteForeign(p, bo, sh, 1, dt, 1, t)
-        \/ \E p \in Paths, o2 \in Ids, how \in {"header", "stream", "zip"} : Load(p, o2, how)
-        \/ \E o, o2 \in Ids : DictRoundTrip(o, o2) \/ Clone(o, o2)
-        \/ \E o, o2 \in Ids, r0, r1, c0, c1 \in 1..2 : Clip(o, o2, r0, r1, c0, c1)
+\* Acts selects the actions of a configuration (deeper configurations explore fewer kinds of action)
+AllActs == {"mutate", "save", "foreign", "load", "dict", "clone", "clip"}
+ChainActs == {"save", "load", "clip", "clone"}          \* results of one call fed to the next: clip -> save -> load, clone -> clip -> save ...
+TwoToks == {0, 1}
+DoMutate == "mutate" \in Acts /\ \E o \in Ids, k \in 1..4, t \in Toks : Mutate(o, k, t)
+DoSave == "save" \in Acts /\ \E o \in Ids, p \in Paths : Save(o, p)
+DoForeign == "foreign" \in Acts /\ \E p \in Paths, bo \in {"I", "M"}, sh \in {<<1, 2>>, <<2, 2>>}, dt \in DTypes, t \in Toks : WriteForeign(p, bo, sh, 1, dt, 1, t)
+DoLoad == "load" \in Acts /\ \E p \in Paths, o2 \in Ids, how \in {"header", "stream", "zip"} : Load(p, o2, how)
+DoDict == "dict" \in Acts /\ \E o, o2 \in Ids : DictRoundTrip(o, o2)
+DoClone == "clone" \in Acts /\ \E o, o2 \in Ids : Clone(o, o2)
+DoClip == "clip" \in Acts /\ \E o, o2 \in Ids, r0, r1, c0, c1 \in 1..2 : Clip(o, o2, r0, r1, c0, c1)
+Next == DoMutate \/ DoSave \/ DoForeign \/ DoLoad \/ DoDict \/ DoClone \/ DoClip
 Spec == Init /\ [][Next]_vars
 Last == hist'[Len(hist')].act
 \* ---- the property, as action properties of the specification
@@ -85,5 +91,7 @@ FilesStable == [][Last[1] \notin {"save", "foreign"} => files' = files]_vars
 ClipHoldsParentValues == [][Last[1] = "clip" =>
      LET g == objs'[Last[3]]  par == objs[Last[2]] IN
      \A r \in 1..g.nr, c \in 1..g.nc : g.data[(r - 1) * g.nc + c] = par.data[(Last[4] - 1 + r - 1) * par.nc + (Last[6] - 1 + c)]]_vars
-View == <<objs, files, hist[Len(hist)].act[1]>>
+\* the last action's name and, for a load, which loader and which file (every loader x file combination gets its own history)
+LastKey == LET a == hist[Len(hist)].act IN IF a[1] = "load" THEN <<a[1], a[2], a[4]>> ELSE <<a[1]>>
+View == <<objs, files, LastKey>>
 =============================================================================
